@@ -226,10 +226,12 @@ def r2(R):
                     # the bytes decoded come from a read of a header length
                     src = call.args[1]
                     if isinstance(src, ast.Name):
-                        ds = [d for d in _defs(f).get(src.id, [])
-                              if isinstance(d, ast.Call)]
-                        if len(_defs(f).get(src.id, [])) != 1:
-                            ds = []     # reused name: no single definition
+                        # nearest definition textually before the use
+                        before = [d for d in _defs(f).get(src.id, [])
+                                  if d.lineno < call.lineno]
+                        before.sort(key=lambda d: d.lineno)
+                        ds = [before[-1]] if before and isinstance(
+                            before[-1], ast.Call) else []
                         for d in ds:
                             fnn = dotted(d.func)
                             if fnn and fnn[-1] == 'read' and d.args:
